@@ -41,7 +41,9 @@ ASSUMPTIONS = [
     "both tessellations cover exactly the same segment / polygon and are conforming (no hanging nodes)",
     "measures compared to 1e-12 relative to the domain measure (inputs are small rationals; the "
     "overlaps are computed in double precision by segments_3d / shapely)",
-    "match_*(scaling=None): the overlap pattern is compared for tol = 1e-8, all exact overlaps are 0 or >= 1/72",
+    "match_*(scaling=None) is called with tol = 1e-8; entries whose physical overlap lies within a factor 2 of tol are not judged",
+    "match_*('averaged' / 'integrated') is called with tol = 1e-4: the documentation applies tol only when scaling is None, so overlaps "
+    "and cells smaller than tol (scaled embeddings 2^-13, 2^-10, 2^-7; 1-d sliver pairs) must still be counted",
     "touching cells (zero-measure intersection) may or may not be reported, but only with weight 0 (<= 1e-12)",
 ]
 BOUNDS = {
@@ -83,6 +85,7 @@ LINE_EMBED = [
     # scale / translation axis (tolerances below are relative to cell size and coordinate magnitude)
     ("x-small-shift", (1024.0, 0.0, 0.0), (2.0**-7, 0.0, 0.0), False),
     ("122-big", (0.0, 0.0, 0.0), (1024.0, 2048.0, 2048.0), False),
+    ("x-2^-13", (0.0, 0.0, 0.0), (2.0**-13, 0.0, 0.0), False),  # cells of length 2e-5 .. 1.2e-4, below TOL_WEIGHTED
 ]
 NL = 6
 
@@ -109,6 +112,8 @@ PLANE_EMBED = [
     # scale / translation axis, in the xy-plane with exactly representable coordinates
     ("xy-shift-small", (1024.0, -2048.0, 0.0), (2.0**-7, 0.0, 0.0), (0.0, 2.0**-7, 0.0)),
     ("xy-big", (0.0, 0.0, 0.0), (1024.0, 0.0, 0.0), (0.0, 1024.0, 0.0)),
+    ("xy-2^-10", (0.0, 0.0, 0.0), (2.0**-10, 0.0, 0.0), (0.0, 2.0**-10, 0.0)),  # cell areas ~1e-6
+    ("xy-2^-3", (0.0, 0.0, 0.0), (0.125, 0.0, 0.0), (0.0, 0.125, 0.0)),
 ]
 
 
@@ -116,12 +121,12 @@ def _combos(tier):
     """(domain, stretch, embedding index, maximal number of extra points)."""
     if tier == "thorough":
         return [(d, s, e, {"square": 3, "L": 2}[d]) for d in DOMAINS for s in STRETCH for e in range(3)] \
-            + [("square", s, e, 2) for s in STRETCH for e in (3, 4)]
+            + [("square", s, e, 2) for s in STRETCH for e in (3, 4, 5, 6)]
     out = []
     for s in STRETCH:
         for e in range(3):
             out.append(("square", s, e, 2 if (s, e) == ("id", 0) else 1))
-    out += [("square", "id", 3, 1), ("square", "s3", 4, 1)]
+    out += [("square", "id", 3, 1), ("square", "s3", 4, 1), ("square", "s3", 5, 1), ("square", "id", 6, 1)]
     out += [("L", "id", 0, 1), ("L", "id", 1, 1), ("L", "s3", 2, 1)]
     return out
 
@@ -168,6 +173,8 @@ def cases(tier):
         n = len(_tess_list(domain, stretch, mx))
         for a in range(n):
             out.append({"kind": "tri", "domain": domain, "stretch": stretch, "embed": e, "a": a, "max_extra": mx})
+    for k in range(len(SLIVER_PAIRS)):
+        out.append({"kind": "line_sliver", "pair": k})
     # arbitrary cell / node numbering (a pp.Grid numbers its cells and nodes arbitrarily)
     masks = [m for m in range(2 ** (NL - 1)) if bin(m).count("1") <= 3]  # <= 4 cells
     if tier == "thorough":
@@ -217,7 +224,11 @@ def _check_overlaps(out, name, got, exact, meas_a, meas_b, scale, cond=1.0):
     return None
 
 
-def _check_match(out, name, fn, g_new, g_old, exact, meas_new, meas_old, cond=1.0):
+TOL_WEIGHTED = 1e-4  # tol handed to match_* for 'averaged' / 'integrated': it must not influence these scalings
+TOL_PATTERN = 1e-8  # tol handed to match_* for scaling=None
+
+
+def _check_match(out, name, fn, g_new, g_old, exact, meas_new, meas_old, cond=1.0, mscale=1.0):
     """averaged rows sum to 1 and equal overlap/|new cell|; integrated columns sum to 1 and equal
     overlap/|old cell|; None = indicator of positive overlap. Returns a list of
     (message, detail) with one entry per failing scaling; detail carries the matrix returned."""
@@ -225,7 +236,7 @@ def _check_match(out, name, fn, g_new, g_old, exact, meas_new, meas_old, cond=1.
     fails = []
     for scaling in ("averaged", "integrated", None):
         try:
-            M = fn(g_new, g_old, 1e-8, scaling=scaling)
+            M = fn(g_new, g_old, TOL_PATTERN if scaling is None else TOL_WEIGHTED, scaling=scaling)
             A = np.asarray(M.todense(), dtype=float)
         except Exception as e:
             fails.append((f"{name}(scaling={scaling}) raised {e!r}", {"scaling": scaling}))
@@ -237,6 +248,15 @@ def _check_match(out, name, fn, g_new, g_old, exact, meas_new, meas_old, cond=1.
         E = np.zeros((nn, no))
         for (i, j), ex in exact.items():
             E[i, j] = float(ex / meas_new[i]) if scaling == "averaged" else float(ex / meas_old[j]) if scaling == "integrated" else 1.0
+        if scaling is None:
+            # physical overlap = exact overlap * mscale; entries whose overlap is within a factor 2
+            # of the tolerance are inside the tolerance band: not judged
+            for (i, j), ex in exact.items():
+                phys = float(ex) * mscale
+                if phys < TOL_PATTERN / 2:
+                    E[i, j] = 0.0
+                elif phys <= 2 * TOL_PATTERN:
+                    E[i, j] = A[i, j]
         det["exact_matrix"] = E
         if scaling == "averaged" and np.abs(A.sum(axis=1) - 1.0).max() > TOL * 10 * cond:
             fails.append((f"{name}(averaged): row sums {A.sum(axis=1).tolist()} are not one", det))
@@ -337,7 +357,7 @@ def _run_line_perm(case, out: Outcome):
         except Exception as e:
             bad = f"line_tessellation raised {e!r}"
         if bad is None:
-            fails = _check_match(out, "match_1d", match_1d, ga, gb, exact, meas_a, meas_b, cond)
+            fails = _check_match(out, "match_1d", match_1d, ga, gb, exact, meas_a, meas_b, cond, length)
             bad = fails[0][0] if fails else None
         if bad:
             _viol(out, bad, "other", embedding=name, nodes_first=ga.nodes, segments_first=la, nodes_second=gb.nodes, segments_second=lb,
@@ -362,6 +382,63 @@ def _run_line_perm(case, out: Outcome):
             evaluate(_grid_1d_perm(na, origin, direction, list(cp), npm), ident_b, "first/" + ("monotone" if monotone else "shuffled") + "/" + nname, key)
     if not out.samples:
         out.samples.append({"nodes_a": [x / NL for x in na], "partners": "all node sets with %s cells, every cell permutation x 3 node numberings" % case["bcells"]})
+
+
+# 1-d pairs with a genuine overlap far below TOL_WEIGHTED (but far above TOL_PATTERN and rounding)
+SLIVER_PAIRS = [
+    ([0.0, 0.5, 1.0], [0.0, 0.5 + 5e-5, 1.0]),
+    ([0.0, 0.5, 1.0], [0.0, 0.5 - 5e-5, 1.0]),
+    ([0.0, 0.5 + 5e-5, 1.0], [0.0, 0.5, 1.0]),
+    ([0.0, 0.25, 0.5, 1.0], [0.0, 0.25 + 1e-6, 0.5 - 2e-5, 1.0]),
+    ([0.0, 0.5, 0.5 + 3e-5, 1.0], [0.0, 0.5 + 1e-5, 1.0]),
+    ([0.0, 1.0], [0.0, 1e-5, 1.0 - 1e-5, 1.0]),
+]
+
+
+def _run_line_sliver(case, out: Outcome):
+    import porepy as pp
+    from porepy.geometry.intersections import line_tessellation
+    from porepy.grids.match_grids import match_1d
+
+    ta, tb = SLIVER_PAIRS[case["pair"]]
+    for dname, axis, sign in (("x", 0, 1.0), ("z-", 2, -1.0), ("y", 1, 1.0)):
+        grids = []
+        for t in (ta, tb):
+            g = pp.TensorGrid(np.array(t))
+            nodes = np.zeros((3, len(t)))
+            nodes[axis] = sign * np.array(t)  # exact: the coordinates are the parameters
+            g.nodes = nodes
+            g.compute_geometry()
+            grids.append(g)
+        ga, gb = grids
+        cells_a = [(X.fr(ta[i]), X.fr(ta[i + 1])) for i in range(len(ta) - 1)]
+        cells_b = [(X.fr(tb[i]), X.fr(tb[i + 1])) for i in range(len(tb) - 1)]
+        exact = {}
+        for i, ca in enumerate(cells_a):
+            for j, cb in enumerate(cells_b):
+                ov = T.interval_overlap(ca, cb)
+                if ov > 0:
+                    exact[(i, j)] = ov
+        meas_a = [c[1] - c[0] for c in cells_a]
+        meas_b = [c[1] - c[0] for c in cells_b]
+        la = np.array([[i, i + 1] for i in range(len(ta) - 1)]).T
+        lb = np.array([[i, i + 1] for i in range(len(tb) - 1)]).T
+        key = ("line_sliver", case["pair"], dname)
+        try:
+            got = line_tessellation(ga.nodes.copy(), gb.nodes.copy(), la, lb)
+            bad = _check_overlaps(out, "line_tessellation", got, exact, meas_a, meas_b, 1.0)
+        except Exception as e:
+            bad = f"line_tessellation raised {e!r}"
+        if bad is None:
+            fails = _check_match(out, "match_1d", match_1d, ga, gb, exact, meas_a, meas_b)
+            bad = fails[0][0] if fails else None
+        if bad:
+            _viol(out, bad, "other", direction=dname, nodes_a=ta, nodes_b=tb, tol_for_weighted_scalings=TOL_WEIGHTED)
+            out.ev("line-sliver/VIOLATION", key)
+        else:
+            out.ev("line-sliver/" + dname, key)
+    if not out.samples:
+        out.samples.append({"nodes_a": ta, "nodes_b": tb, "tol": TOL_WEIGHTED})
 
 
 def _run_line(case, out: Outcome):
@@ -409,7 +486,7 @@ def _run_line(case, out: Outcome):
             nzero = 0
         if bad is None:
             na0, nb0 = ga.nodes.copy(), gb.nodes.copy()
-            fails = _check_match(out, "match_1d", match_1d, ga, gb, exact, meas_a, meas_b, cond)
+            fails = _check_match(out, "match_1d", match_1d, ga, gb, exact, meas_a, meas_b, cond, length)
             bad = fails[0][0] if fails else None
             if bad is None and not (np.array_equal(na0, ga.nodes) and np.array_equal(nb0, gb.nodes)):
                 bad = "match_1d modified the nodes of a grid"
@@ -552,7 +629,7 @@ def _tri_eval(case, out: Outcome, A, partners, tag=None):
         if np.abs(ga.cell_volumes - np.array([float(area_a[i]) for i in ia]) * jac).max() > 1e-10 * jac:
             raise AssertionError("harness: embedded grid has unexpected cell volumes")
         na0, nb0 = ga.nodes.copy(), gb.nodes.copy()
-        mfails = _check_match(out, "match_2d", match_2d, ga, gb, ex_g, [area_a[i] for i in ia], [area_b[j] for j in ib], cond)
+        mfails = _check_match(out, "match_2d", match_2d, ga, gb, ex_g, [area_a[i] for i in ia], [area_b[j] for j in ib], cond, jac)
         if not (np.array_equal(na0, ga.nodes) and np.array_equal(nb0, gb.nodes)):
             bads.append("match_2d modified the nodes of a grid")
         common = dict(domain=case["domain"], stretch=case["stretch"], embedding=plane[0], points_a=pts_a, triangles_a=tri_a,
@@ -629,6 +706,8 @@ def run_case(case) -> Outcome:
         _run_line(case, out)
     elif case["kind"] in ("tri", "tri_pair", "tri_perm"):
         _run_tri(case, out)
+    elif case["kind"] == "line_sliver":
+        _run_line_sliver(case, out)
     elif case["kind"] == "line_perm":
         _run_line_perm(case, out)
     else:
